@@ -181,6 +181,8 @@ def _run(ctx, base):
                     modes.append(("fault", ERRNOS[(i + len(o)) % 3]))
                 else:
                     modes += [("fault", e) for e in ERRNOS]
+                if un["steps"][k][0][0] in ("Rename", "Exchange") and data_step(un["steps"][k][0]):
+                    modes.append(("fault", "EXDEV"))      # collections on different file systems
                 for mode, err in modes:
                     tag = "%s-%d%d-%s-%d-%s%s" % (sh, lay[0], lay[1], o, i, mode, err or "")
                     jobs.append(dict(base=base, shape=sh, lay=lay, opname=o, tag=tag, inject=(mode, err, name, ordinal),
@@ -189,7 +191,7 @@ def _run(ctx, base):
                     stkind = un["steps"][k][0][0]
                     # TemporaryDirectory clean-up retries after a PermissionError: the real request goes on as if unfaulted
                     oracle = None if (mode == "fault" and err == "EACCES" and stkind == "Rmtree") else (
-                        ("crash", k) if mode == "crash" else ("fail", k, err))
+                        ("crash", k) if mode == "crash" else ("fail", k, "EIO" if err == "EXDEV" else err))
                     if un.get("guard"):
                         jobs[-1]["base_status"] = un["status"]
                         mjobs.append(None)
@@ -281,6 +283,21 @@ def replay(ctx, path):
         if not op:
             return 0
         un = B.unfaulted(base, r["shape"], tuple(r["layout"]), op[0])
+        inject = list(r["inject"]) if r.get("inject") else None
+        # the ordinal of a call counts from process start and moves with the harness / the code under test:
+        # locate the call again by what the replay names (call site and occurrence, or model step)
+        import re
+        m = re.match(r"(\w+) of (\S+) \(call (\d+)/\d+ of the request", r.get("boundary", ""))
+        if inject and m:
+            occ = [x for x in un["rsites"] if x["key"] == (m.group(1), m.group(2))]
+            i = int(m.group(3)) - 1
+            if i < len(occ):
+                inject[2], inject[3] = occ[i]["name"], occ[i]["ordinal"]
+        elif inject and inject[0] != "short":
+            hit = [p for p in B.injection_points(un, every_syscall=True) if p[4] == r.get("boundary")]
+            if hit:
+                inject[2], inject[3] = hit[0][1], hit[0][2]
+        r = dict(r, inject=inject)
         if not r.get("inject"):
             changed = un["pre_abs"] != un["post_abs"]
             print("fault-free run: status", un["status"], "visible store", "CHANGED" if changed else "unchanged")
